@@ -3,13 +3,13 @@
 (* bounded by the number of messages the leecher sends (NSEND) and the number of    *)
 (* choke/unchoke decisions of the unchoker (NFLIP).                                 *)
 EXTENDS Upload
-CONSTANTS NP, PLEN, MAXBLK, MAXQ, CB, NCONN, IMPL, HAVE0, REQS, CANS, AFP, NSEND, NFLIP, NOPEN, GROW
+CONSTANTS NP, PLEN, MAXBLK, MAXQ, CB, NCONN, IMPL, HAVE0, REQS, CANS, AFP, NSEND, NFLIP, NOPEN, GROW, AFSEND
 
 VARIABLES nsend, nflip, nopen
 mcvars == <<vars, nsend, nflip, nopen>>
 
 MCInit ==
-    /\ InitWith([np |-> NP, plen |-> PLEN, maxblk |-> MAXBLK, maxq |-> MAXQ, cb |-> CB, nconn |-> NCONN, impl |-> IMPL], HAVE0)
+    /\ InitWith([np |-> NP, plen |-> PLEN, maxblk |-> MAXBLK, maxq |-> MAXQ, cb |-> CB, nconn |-> NCONN, impl |-> IMPL, afsend |-> AFSEND], HAVE0)
     /\ nsend = 0 /\ nflip = 0 /\ nopen = 0
 
 ReqMsgs == {M("req", r[1], r[2], r[3], <<>>) : r \in REQS} \cup {M("cancel", r[1], r[2], r[3], <<>>) : r \in CANS}
@@ -46,6 +46,9 @@ REQS_Q == {<<0,1,2>>, <<0,1,3>>}
 REQS_1 == {<<0,1,2>>}
 REQS_B == {<<0,1,2>>, <<0,0,2>>}
 REQS_C == {<<0,1,3>>, <<0,2,3>>, <<1,0,3>>, <<1,1,3>>, <<0,4,2>>}
+\* the allowed-fast piece that is obtained after the connection was opened, and a piece held from the start (small twins
+\* MC_Upload_growq / MC_Upload_afheld of the quick tier)
+REQS_G == {<<1,0,3>>, <<0,1,3>>}
 
 \* vacuity guards (checked with -coverage during development, and as "must be reachable" configs)
 SomeServed == \E c \in Conn : served[c] # {}
